@@ -288,9 +288,11 @@ int accept(ACCEPTPARAMS) {
     fibershim_accept = (acceptFnType)dlsym(RTLD_NEXT, "accept");
   }
 
+  // several fibers may be woken by one incoming connection: keep waiting until
+  // this fiber actually gets one (same loop as read/write)
   int sock = fibershim_accept(sockfd, addr, addrlen);
-  if (sock < 0 && (errno == EWOULDBLOCK || errno == EAGAIN) &&
-      should_block(sockfd)) {
+  while (sock < 0 && (errno == EWOULDBLOCK || errno == EAGAIN) &&
+         should_block(sockfd)) {
     if (!fiber_wait_for_event(sockfd, FIBER_POLL_IN)) {
       return -1;
     }
